@@ -19,11 +19,12 @@ correspondence between the specification and the library on free models, is what
       n1 + n2 = -1 and their combinations): chi minus the Wick part built from the library's own G values must vanish, and the
       library's Vertex4::value must vanish, relative to beta*|G|^2.
 
-Observation recorded in the evidence (not a C12 violation, the values are right): TwoParticleGFPart::compute() ends with
-assert(NonResonantTerms.check_terms()) / assert(ResonantTerms.check_terms()); the library variants built by tools/pv.py are
-Release / RelWithDebInfo (NDEBUG), so the asserts are compiled out.  The harness evaluates check_terms() itself (`checkterms`);
-it returns false on the unmodified library for some degenerate free models (4-site ring, two equal dimers): see
-coverage.check_terms_observation and proposed/fix-termlist-check-terms.diff.
+Assertion-enabled build: TwoParticleGFPart::compute() ends with assert(NonResonantTerms.check_terms()) /
+assert(ResonantTerms.check_terms()).  The variants real/complex/asan are built with NDEBUG; a plain `cmake /repo` is not, and
+there the unrepaired check_terms() (which demanded non-negligibility w.r.t. the FINAL list size, not an invariant of add_term)
+aborted on degenerate free models (4-site ring, two equal dimers) although the values were right: repaired in /repo
+(7d733ea).  Stage `assertion_stage` runs those models through the variant `assert` (no NDEBUG) on every run: an abort is a
+violation.  The harness still evaluates check_terms() itself (`checkterms`) and records the result as an observation.
 
 Harness: harness/h_c12.cpp (scenario interpreter of ed_common.h; real GreensFunction, TwoParticleGF, Vertex4 objects).
 """
@@ -294,6 +295,32 @@ def model_text(layout, modes, h, symm, beta):
             lb, ob, sb = modes[b]
             s += "term 2 %s 1 %s %d %d 0 %s %d %d\n" % (melem(v), la, oa, sa, lb, ob, sb)
     return s + "symm %s\nbeta %s\n" % (symm, f(beta))
+
+
+def assertion_stage(chk):
+    """The library's own assert()s are active in a build without a build type (what a plain `cmake /repo` produces).  The fixed
+    degenerate free models -- on which the unrepaired TermList::check_terms made TwoParticleGFPart::compute abort (repaired
+    in 7d733ea) -- plus two generic ones are run through the assertion-enabled variant: an abort is a violation (no value is
+    returned for a quadratic model), with the scenario and the query as replay."""
+    hbin = pv.build_harness("h_c12", "assert")
+    layout, modes, _ = LAYOUTS[4][0]
+    jobs = [(name, model_text(layout, modes, h, symm, beta), fq + [(0, 1, 0, 1), (1, 1, 1, 1)])
+            for name, h, beta, fq in FIXED_DEG for symm in ("default", "ignore")]
+    l2, m2, _ = LAYOUTS[2][0]
+    jobs.append(("atom-free", model_text(l2, m2, [[0.25, 0], [0, 0.25]], "default", 4), [(0, 1, 0, 1), (0, 0, 0, 0)]))
+    for name, text, quads in jobs:
+        for qd in quads:
+            q = "vertex %d %d %d %d %d %s" % (qd + (3, "0 0 0 1 -2 1 0 -1 0"))
+            inp = "model\n%s\nend\n%s\n" % (text.strip(), q)
+            rc, out, err = pv.run_harness(hbin, inp, timeout=600)
+            chk.case("assert|%s|%s" % (text, q), "assertion-enabled build %s" % name, True, None)
+            if rc != 0 and ("Assertion" in err or rc in (134, -6)):
+                m = [l for l in err.split("\n") if "Assertion" in l]
+                chk.violation("assertion-abort: %s quad=%s" % (name, "".join(map(str, qd))),
+                              "an assertion-enabled build (no CMAKE_BUILD_TYPE) aborts on the quadratic model %s, chi_%s: %s"
+                              % (name, "".join(map(str, qd)), (m[0] if m else err[-200:])[:300]),
+                              {"harness": "h_c12 (assert variant: -O1, no NDEBUG)", "input": inp, "variant": "assert"})
+                break
 
 
 def quadruples(rng, M, nq):
@@ -645,6 +672,7 @@ def run(chk):
                        "h": [[str(x) for x in row] for row in sh], "kind": fl["kind"], "detail": sfl["detail"], "unshrunk_scenario": text})
     chk.extra["models"] = nmod
     chk.extra["cases_by_family"] = famhist
+    assertion_stage(chk)
     chk.rule = ("models: Hermitian h on M = 2..4 modes (5 in the thorough tier) of the kinds random / diagonal / diagonal with equal and opposite levels / "
                 "degenerate with non-trivial eigenvectors / zero / block-diagonal / particle-hole symmetric spectrum / uniform ring, star with equal leaves, "
                 "complete graph on 3..5 modes with exactly degenerate levels and with levels split by 1e-9..1e-13 (8 quadruples x the 10 resonant triples of "
@@ -683,3 +711,4 @@ def replay(chk, path):
 
 def setup():
     pv.build_harness("h_c12", "real")
+    pv.build_harness("h_c12", "assert")
